@@ -1,10 +1,15 @@
 package props
 
 import (
+	"context"
 	"encoding/hex"
 	"encoding/json"
 	"fmt"
 	"math/rand"
+	"os"
+	"os/exec"
+	"path/filepath"
+	"sync/atomic"
 	"time"
 
 	"golang.org/x/mod/sumdb/tlog"
@@ -19,9 +24,10 @@ func init() { hx.Register(&hx.Prop{ID: "C03", Run: runC03, Replay: replayC03}) }
 // c03In is a self-contained replay: the log is regenerated from (Sub, Size); a check tuple is
 // given in full.
 type c03In struct {
-	Op   string   `json:"op"` // "prove-record", "prove-tree", "check-record", "check-tree"
+	Op   string   `json:"op"` // "prove-record", "prove-tree", "check-record", "check-tree", "huge-record", "huge-tree", "reject-record", "reject-tree"
 	Sub  int64    `json:"sub,omitempty"`
 	Size int      `json:"size,omitempty"`
+	Rec  string   `json:"rec_hex,omitempty"` // huge-*: the record every entry of the virtual log holds
 	P    []string `json:"p_hex,omitempty"`
 	T    int64    `json:"t"`
 	TH   string   `json:"th_hex,omitempty"`
@@ -54,6 +60,8 @@ func (u c03Tuple) val() wire.Val {
 	return wire.L(gen.HashesVal(u.P), wire.I(u.T), wire.Bytes(u.TH[:]), wire.I(u.N), wire.Bytes(u.H[:]))
 }
 
+var c03Timeouts int32 // calls abandoned by c03Timed
+
 // c03Timed runs f with a time limit (sizes near 2^62 made an older maxpow2 loop forever).
 func c03Timed(f func() wire.Val) (v wire.Val, timedOut bool) {
 	ch := make(chan wire.Val, 1)
@@ -62,6 +70,7 @@ func c03Timed(f func() wire.Val) (v wire.Val, timedOut bool) {
 	case v = <-ch:
 		return v, false
 	case <-time.After(10 * time.Second):
+		atomic.AddInt32(&c03Timeouts, 1)
 		return wire.Err("timeout"), true
 	}
 }
@@ -205,7 +214,7 @@ func c03Flip(h tlog.Hash, r *rand.Rand) tlog.Hash {
 
 func c03Pow2Below(t int64) int64 {
 	k := int64(1)
-	for k*2 < t {
+	for t >= 2 && k < t-k { // k*2 < t without overflow (t up to 2^63-1)
 		k *= 2
 	}
 	return k
@@ -467,6 +476,9 @@ func runC03(c *hx.Ctx) {
 			}
 		}
 	}
+	// huge trees (oracle only); before the prover stream, which can kill the process (see c03Canary)
+	proversCrash := c03Canary(c)
+	c03Huge(c)
 	// provers: invalid arguments, failing readers, sizes beyond the log
 	for i := 0; i < c.N(300); i++ {
 		t := int64(r.Intn(size + 3))
@@ -480,10 +492,216 @@ func runC03(c *hx.Ctx) {
 			n = t + int64(r.Intn(2))
 		}
 		mode := []int{0, 0, 1, 2, 3}[r.Intn(5)]
+		if proversCrash && t >= 1<<61 {
+			r.Intn(6)
+			r.Intn(6)
+			c.Count("prover-case-skipped-after-canary-crash")
+			continue
+		}
 		c03ProveCase(c, "ProveRecord", l, t, n, mode, r.Intn(6) == 0)
 		c03ProveCase(c, "ProveTree", l, t, n, mode, r.Intn(6) == 0)
 	}
 	c.Sample(fmt.Sprintf("one log of %d records (sub-seed %d), every t <= %d", size, sub, maxT))
+}
+
+// ---------------------------------------------------------------- huge trees (oracle only)
+//
+// Tree sizes around and above 2^62, up to 2^63-1: honest RFC 6962 proofs come from a virtual log
+// of identical records (gen.VirtualLog). No correspondence cases here: the Coq theorems carry
+// t <= 2^62 and the unbounded-Z model is not claimed to mirror int64 above it.
+
+func c03HugeHonestRecord(vl *gen.VirtualLog, t, n int64) (string, c03Tuple) {
+	u := c03Tuple{P: vl.Path(n, t), T: t, TH: vl.MTH(t), N: n, H: vl.Leaf()}
+	if !gen.RfcVerifyInclusion(u.P, u.T, u.TH, u.N, u.H) {
+		return fmt.Sprintf("harness: the RFC 9162 verifier rejects PATH(%d, D[%d]) of the virtual log", n, t), u
+	}
+	v, to := c03CheckRecord(u)
+	switch {
+	case to:
+		return fmt.Sprintf("CheckRecord(t=%d, n=%d) does not return on the RFC 6962 audit path", t, n), u
+	case v.String() == wire.Panic().String():
+		return fmt.Sprintf("CheckRecord(t=%d, n=%d) panics on the RFC 6962 audit path", t, n), u
+	case !c03Accepted(v):
+		return fmt.Sprintf("CheckRecord(t=%d, n=%d) rejects the RFC 6962 audit path (%d hashes) that the RFC 9162 verifier accepts: %s", t, n, len(u.P), v.String()), u
+	}
+	return "", u
+}
+
+func c03HugeHonestTree(vl *gen.VirtualLog, t, n int64) (string, c03Tuple) {
+	u := c03Tuple{P: vl.Proof(n, t), T: t, TH: vl.MTH(t), N: n, H: vl.MTH(n)}
+	if !gen.RfcVerifyConsistency(u.P, u.T, u.TH, u.N, u.H) {
+		return fmt.Sprintf("harness: the RFC 9162 verifier rejects PROOF(%d, D[%d]) of the virtual log", n, t), u
+	}
+	v, to := c03CheckTree(u)
+	switch {
+	case to:
+		return fmt.Sprintf("CheckTree(t=%d, n=%d) does not return on the RFC 6962 consistency proof", t, n), u
+	case v.String() == wire.Panic().String():
+		return fmt.Sprintf("CheckTree(t=%d, n=%d) panics on the RFC 6962 consistency proof", t, n), u
+	case !c03Accepted(v):
+		return fmt.Sprintf("CheckTree(t=%d, n=%d) rejects the RFC 6962 consistency proof (%d hashes) that the RFC 9162 verifier accepts: %s", t, n, len(u.P), v.String()), u
+	}
+	return "", u
+}
+
+// c03MustReject: a tuple with one corrupted proof hash must be refused (with an error).
+func c03MustReject(tree bool, u c03Tuple) string {
+	name, check := "CheckRecord", c03CheckRecord
+	if tree {
+		name, check = "CheckTree", c03CheckTree
+	}
+	v, to := check(u)
+	switch {
+	case to:
+		return name + " does not return"
+	case v.String() == wire.Panic().String():
+		return name + " panics"
+	case c03Accepted(v):
+		return fmt.Sprintf("%s(len(p)=%d, t=%d, n=%d) accepts a proof with a corrupted hash", name, len(u.P), u.T, u.N)
+	}
+	return ""
+}
+
+// c03CanaryRun calls both provers on a log of 8 records with tree size t: any error is fine, a
+// panic or a hang is not. A fatal runtime error (unbounded recursion: stack overflow) cannot be
+// caught in-process, which is why c03Canary runs this in a child process.
+func c03CanaryRun(t, n int64) string {
+	l, err := gen.NewMemLog(gen.LogRecords(rand.New(rand.NewSource(1)), 8))
+	if err != nil {
+		return "log: " + err.Error()
+	}
+	for _, fn := range []string{"ProveRecord", "ProveTree"} {
+		v, to := c03Timed(func() wire.Val {
+			return tlImplHashes(func() ([]tlog.Hash, error) {
+				if fn == "ProveRecord" {
+					return tlog.ProveRecord(t, n, l.Reader())
+				}
+				return tlog.ProveTree(t, n, l.Reader())
+			})
+		})
+		if to {
+			return fmt.Sprintf("%s(%d, %d, reader of an 8-record log) does not return", fn, t, n)
+		}
+		if v.String() == wire.Panic().String() {
+			return fmt.Sprintf("%s(%d, %d, reader of an 8-record log) panics", fn, t, n)
+		}
+	}
+	return ""
+}
+
+// c03Canary runs the provers at sizes around and above 2^62 in a child process (this binary,
+// "replay" mode) before the in-process prover stream uses such sizes: a crash of the child is a
+// violation with the input as replay, and the in-process calls at those sizes are then skipped
+// so that the run survives to report it.
+func c03Canary(c *hx.Ctx) (crashed bool) {
+	exe, err := os.Executable()
+	if err != nil {
+		c.Sample("canary: os.Executable: " + err.Error())
+		return false
+	}
+	const p61, p62, top = int64(1) << 61, int64(1) << 62, int64(1<<63 - 1)
+	for _, tn := range [][2]int64{{p62 - 1, 0}, {p62, 3}, {p62, p62}, {p62 + 1, 0}, {p62 + 1, 5}, {p62 + 1, p62 + 1}, {p62 + 2, p62},
+		{p62 + p61, 1}, {top, 2}, {top, top - 1}} {
+		in := c03In{Op: "prove-canary", T: tn[0], N: tn[1]}
+		raw, _ := json.Marshal(struct {
+			Input c03In `json:"input"`
+		}{in})
+		file := filepath.Join(c.Out, "c03-canary.json")
+		if err := os.WriteFile(file, raw, 0o644); err != nil {
+			c.Sample("canary: " + err.Error())
+			return false
+		}
+		ctx, cancel := context.WithTimeout(context.Background(), 60*time.Second)
+		out, err := exec.CommandContext(ctx, exe, "replay", "C03", file).CombinedOutput()
+		cancel()
+		msg := ""
+		if err != nil {
+			if len(out) > 300 {
+				out = out[:300]
+			}
+			msg = fmt.Sprintf("the process running ProveRecord/ProveTree(t=%d, n=%d) dies or fails (%v): %s", tn[0], tn[1], err, out)
+			crashed = true
+		}
+		c.Check("provers-return-at-huge-sizes", msg == "", "", in, msg)
+	}
+	return crashed
+}
+
+func c03Huge(c *hx.Ctx) {
+	r := c.Rng
+	const p61, p62, top = int64(1) << 61, int64(1) << 62, int64(1<<63 - 1)
+	rec := make([]byte, r.Intn(40))
+	r.Read(rec)
+	recHex := hex.EncodeToString(rec)
+	vl := gen.NewVirtualLog(rec)
+	timeouts0 := atomic.LoadInt32(&c03Timeouts)
+	sizes := []int64{p62 - 1, p62, p62 + 1, p62 + 2, p62 + 3, p62 + p61 - 1, p62 + p61, p62 + p61 + 1, p62 + p61 + 7, top - 1, top,
+		p61 - 1, p61, p61 + 1}
+	for i := 0; i < c.N(10); i++ {
+		sizes = append(sizes, p62+1+r.Int63n(p62-1)) // random in (2^62, 2^63)
+	}
+	for i := 0; i < c.N(4); i++ {
+		sizes = append(sizes, p62+1+gen.RandSize(r, 61), top-gen.RandSize(r, 61)) // just above 2^62, just below 2^63
+	}
+	for i := 0; i < c.N(4); i++ {
+		sizes = append(sizes, 1+gen.RandSize(r, 62)) // any number of bits
+	}
+	for _, t := range sizes {
+		cand := []int64{0, 1, 2, 5, t / 3, t / 2, t/2 + 1, p61, p62 - 1, p62, p62 + 1, t - p62, t - p62 - 1, t - p61, p62 + p61, t - 2, t - 1, t,
+			r.Int63n(t), r.Int63n(t), gen.RandSize(r, 63), t - gen.RandSize(r, 62)}
+		seen := map[int64]bool{}
+		var ns []int64
+		for _, n := range cand {
+			if n >= 0 && n <= t && !seen[n] {
+				seen[n] = true
+				ns = append(ns, n)
+			}
+		}
+		band := "t<=2^62"
+		if t > p62 {
+			band = "t>2^62"
+		}
+		fullR, fullT := ns[r.Intn(len(ns))], ns[r.Intn(len(ns))]
+		for _, n := range ns {
+			for _, tree := range []bool{false, true} {
+				if (!tree && n >= t) || (tree && n < 1) {
+					continue
+				}
+				kind, hop, cop, rop, iff := "record", "huge-record", "check-record", "reject-record", "huge-check-record-iff-rfc9162"
+				honestF, verdictF := c03HugeHonestRecord, c03RecordVerdict
+				if tree {
+					kind, hop, cop, rop, iff = "tree", "huge-tree", "check-tree", "reject-tree", "huge-check-tree-iff-rfc9162"
+					honestF, verdictF = c03HugeHonestTree, c03TreeVerdict
+				}
+				msg, honest := honestF(vl, t, n)
+				c.Check("huge-"+kind+"-honest-proof-accepted", msg == "", "", c03In{Op: hop, Rec: recHex, T: t, N: n}, msg)
+				c.Count("huge-" + kind + ":" + band)
+				c.Nontrivial(fmt.Sprintf("h%s:%d:%d", kind[:1], t, n))
+				// every single-hash corruption is rejected, and the verdict is the RFC verifier's
+				for i := range honest.P {
+					m := honest.clone()
+					m.P[i] = c03Flip(m.P[i], r)
+					rmsg := c03MustReject(tree, m)
+					c.Check("huge-"+kind+"-corrupted-hash-rejected", rmsg == "", "", m.in(rop, 0, 0), rmsg)
+					vmsg := verdictF(m)
+					c.Check(iff, vmsg == "", "", m.in(cop, 0, 0), vmsg)
+				}
+				if atomic.LoadInt32(&c03Timeouts) >= timeouts0+3 {
+					c.Sample("huge trees: stream abandoned after 3 calls that did not return")
+					return
+				}
+				if (!tree && n == fullR) || (tree && n == fullT) || r.Intn(8) == 0 {
+					muts, labels := c03Mutations(r, honest, t)
+					for i, m := range muts {
+						vmsg := verdictF(m)
+						c.Check(iff, vmsg == "", "", m.in(cop, 0, 0), vmsg)
+						c.Count("huge-" + kind + "-mutation:" + labels[i])
+					}
+				}
+			}
+		}
+	}
+	c.Sample(fmt.Sprintf("virtual log of identical records (%d bytes): %d tree sizes from 2^61 to 2^63-1, oracle only", len(rec), len(sizes)))
 }
 
 func c03Hash(s string) (h tlog.Hash) {
@@ -521,6 +739,25 @@ func replayC03(raw json.RawMessage) (bool, string) {
 		if msg = c03TreeVerdict(u); msg == "" {
 			msg = c03TreeMember(u, rfc)
 		}
+	case "huge-record", "huge-tree":
+		rec, err := hex.DecodeString(in.Rec)
+		if err != nil {
+			return false, "rec_hex: " + err.Error()
+		}
+		if in.T < 1 || in.N < 0 || in.N > in.T || (in.Op == "huge-record" && in.N == in.T) || (in.Op == "huge-tree" && in.N == 0) {
+			return false, "huge-*: need 0 <= n < t (record) or 1 <= n <= t (tree)"
+		}
+		if in.Op == "huge-record" {
+			msg, _ = c03HugeHonestRecord(gen.NewVirtualLog(rec), in.T, in.N)
+		} else {
+			msg, _ = c03HugeHonestTree(gen.NewVirtualLog(rec), in.T, in.N)
+		}
+	case "prove-canary":
+		msg = c03CanaryRun(in.T, in.N)
+	case "reject-record":
+		msg = c03MustReject(false, u)
+	case "reject-tree":
+		msg = c03MustReject(true, u)
 	case "log":
 	default:
 		return false, "unknown op " + in.Op
